@@ -49,11 +49,35 @@ var moduleBasics = module.NewBasicManager(auth.AppModuleBasic{}, bank.AppModuleB
 
 const permStoreKey = "verifibcperm"
 
-// BaseTime is tick 0 of the abstract clock; one tick is 500 ms.
+// BaseTime is tick 0 of the abstract clock.  One tick is TickMs milliseconds: 500 by default (the code compares
+// whole seconds, so the half-second grain exposes the rounding), or 500 * 2^33 (about 136 years) in the
+// "window" family, where two ticks are close to the largest representable time.Duration.
 var BaseTime = time.Date(2024, time.March, 1, 12, 0, 0, 0, time.UTC)
+var TickMs int64 = 500
 
-func TickTime(t int64) time.Time { return BaseTime.Add(time.Duration(t) * 500 * time.Millisecond) }
-func TimeTick(t time.Time) int64 { return int64(t.Sub(BaseTime) / (500 * time.Millisecond)) }
+func tickDuration() time.Duration { return time.Duration(TickMs) * time.Millisecond }
+
+// AddTicks adds n ticks to t one tick at a time (n ticks may exceed the range of a single time.Duration).
+func AddTicks(t time.Time, n int64) time.Time {
+	for ; n > 0; n-- {
+		t = t.Add(tickDuration())
+	}
+	for ; n < 0; n++ {
+		t = t.Add(-tickDuration())
+	}
+	return t
+}
+func TickTime(t int64) time.Time { return AddTicks(BaseTime, t) }
+func TimeTick(t time.Time) int64 { return (t.UnixMilli() - BaseTime.UnixMilli()) / TickMs }
+
+// TicksDuration converts a tick count to a time.Duration; it panics if the value is not representable.
+func TicksDuration(n int64) time.Duration {
+	d := time.Duration(n) * tickDuration()
+	if n != 0 && d/time.Duration(n) != tickDuration() {
+		panic("tick count not representable as time.Duration")
+	}
+	return d
+}
 
 // Fixture is one L1 chain instance (stores + keepers).  Chain values share a fixture and differ in
 // the sdk.Context (store branch, block header) they run on.
